@@ -129,7 +129,11 @@ _FAM = {}
 
 
 def family(tag):
-    """[(label, matrix)] for tag in bin_und, bin_dir, len_und, len_dir, neartie_und, neartie_dir."""
+    """[(label, matrix)] for tag in bin_und, bin_dir, len_und, len_dir, neartie_und, neartie_dir, bintree_und."""
+    if tag == 'bintree_und' and tag not in _FAM:
+        # every free tree on 8 and 9 nodes under the scan orders of bctmc/trees.py (3354 labelled trees)
+        from bctmc import trees
+        _FAM[tag] = trees.shape_family(8) + trees.shape_family(9)
     if tag not in _FAM:
         base = und_list() if tag.endswith('_und') else dir_list()
         kind = tag.split('_')[0]
